@@ -60,7 +60,7 @@ CORE = [
 
 def cases_for(tier, rng):
     cases = [8 * t + m for t, ms in CORE for m in ms]
-    extra = 24 if tier == "quick" else 40
+    extra = 16 if tier == "quick" else 40
     for _ in range(extra):
         t = rng.randrange(NTABLES)
         m = 7 if rng.random() < 0.6 else rng.randrange(8)
@@ -89,8 +89,8 @@ def specs_str(specs):
 # --------------------------------------------------------------------------
 def model_check(tier, wd, ev):
     """P1: machine == Parse, accepted vectors are spellings, spellings parse back."""
-    tabs = [c[0] for c in CORE[:3]] if tier == "quick" else [c[0] for c in CORE[:6]]
-    maxlen = 4
+    tabs = [c[0] for c in CORE[:6]] if tier == "quick" else [c[0] for c in CORE]
+    maxlen = 3 if tier == "quick" else 4
     cfg = write_cfg(os.path.join(wd, "mc_machine.cfg"), f"""SPECIFICATION Spec
 CONSTANTS
   TableIds = {set_lit(tabs)}
@@ -109,26 +109,27 @@ INVARIANT OnlySpellings
     ev["transitions"] += r.generated
     ev["machine_action_coverage"] = r.coverage
     ev["machine_actions_not_exercised"] = sorted(a for a, c in r.coverage.items() if c == 0)
-    if tier == "thorough":
-        cfg = write_cfg(os.path.join(wd, "mc_machine5.cfg"), f"""SPECIFICATION Spec
+    deep_tabs, deep_len = ([CORE[2][0]], 4) if tier == "quick" else ([c[0] for c in CORE[2:5]], 5)
+    cfg = write_cfg(os.path.join(wd, "mc_machine_deep.cfg"), f"""SPECIFICATION Spec
 CONSTANTS
-  TableIds = {set_lit([c[0] for c in CORE[2:5]])}
+  TableIds = {set_lit(deep_tabs)}
   ModeIds = {{7}}
-  MaxLen = 5
+  MaxLen = {deep_len}
   CheckSpellings = FALSE
 INVARIANT Agree
 """)
-        r = vlib.tlc("OptParseMachine", cfg, workers=8, timeout=2400, deadlock=True)
-        vlib.tlc_must_pass(r, "machine == functional definition, vectors <= 5")
-        vlib.log(f"[tlc] OptParseMachine (<= 5): {r.distinct} distinct states, {r.wall:.1f}s")
-        ev["states"] += r.distinct
-        ev["transitions"] += r.generated
-    spell_tabs = [c[0] for c in CORE[:3]] if tier == "quick" else [c[0] for c in CORE]
+    r = vlib.tlc("OptParseMachine", cfg, workers=8, timeout=2400, deadlock=True)
+    vlib.tlc_must_pass(r, f"machine == functional definition, vectors <= {deep_len}")
+    vlib.log(f"[tlc] OptParseMachine (<= {deep_len}, {len(deep_tabs)} tables): {r.distinct} distinct states, {r.wall:.1f}s")
+    ev["states"] += r.distinct
+    ev["transitions"] += r.generated
+    spell_tabs = [c[0] for c in CORE[:4]] if tier == "quick" else [c[0] for c in CORE]
+    max_opts = 2 if tier == "quick" else 3
     cfg = write_cfg(os.path.join(wd, "mc_spell.cfg"), f"""SPECIFICATION Spec
 CONSTANTS
   TableIds = {set_lit(spell_tabs)}
   ModeIds = {{0, 7}}
-  MaxOpts = 3
+  MaxOpts = {max_opts}
   MaxOps = 1
 INVARIANT SpellingsParseBack
 INVARIANT SomeSpelling
@@ -213,7 +214,7 @@ def enumeration(tier, wd, rep, ev, rng):
 # --------------------------------------------------------------------------
 def random_validation(tier, wd, rep, ev):
     """P4b: random longer vectors recorded from the real parser, validated by TLC."""
-    n, maxlen = (24000, 8) if tier == "quick" else (300000, 10)
+    n, maxlen = (12000, 8) if tier == "quick" else (300000, 10)
     trace = os.path.join(wd, "random.ndjson")
     _, _, err = vlib.run_harness(PKG, ["random", "--n", n, "--maxlen", maxlen, "--out", trace])
     try:
